@@ -41,6 +41,7 @@ type Session struct {
 	lastHsync       string
 	inMemTree       map[int]bool
 	lastDLS         string
+	transientFault  bool // a store load failed once during the running operation
 	byContent       map[string]string // decoded node -> bytes it was written as
 	lastCwalk       string
 	isoCount        int
